@@ -7,6 +7,7 @@ import (
 	"io"
 	"runtime"
 	"strings"
+	"sync"
 	"time"
 
 	lz4 "github.com/pierrec/lz4/v4"
@@ -52,23 +53,33 @@ func errName(err error) string {
 	return "other:" + strings.ReplaceAll(err.Error(), " ", "_")
 }
 
-// scripted sink
+// scripted sink (safe for use from the library's goroutines and the harness at once)
 type scriptSink struct {
+	mu     sync.Mutex
 	writes [][]byte
-	calls  int
+	ncalls int
 	failAt int // -1 = never
 }
 
 func (s *scriptSink) Write(p []byte) (int, error) {
-	k := s.calls
-	s.calls++
+	s.mu.Lock()
+	defer s.mu.Unlock()
+	k := s.ncalls
+	s.ncalls++
 	if s.failAt >= 0 && k >= s.failAt {
 		return 0, errInjected
 	}
 	s.writes = append(s.writes, append([]byte(nil), p...))
 	return len(p), nil
 }
+func (s *scriptSink) calls() int {
+	s.mu.Lock()
+	defer s.mu.Unlock()
+	return s.ncalls
+}
 func (s *scriptSink) bytes() []byte {
+	s.mu.Lock()
+	defer s.mu.Unlock()
 	var b []byte
 	for _, w := range s.writes {
 		b = append(b, w...)
@@ -77,33 +88,41 @@ func (s *scriptSink) bytes() []byte {
 }
 func (s *scriptSink) summary() string {
 	all := s.bytes()
+	s.mu.Lock()
+	defer s.mu.Unlock()
 	h := uint64(14695981039346656037)
 	for _, w := range s.writes {
 		h = (h ^ uint64(len(w))) * 1099511628211
 	}
-	return fmt.Sprintf("calls=%d,writes=%d,bytes=%d,fnv=%d,pattern=%d", s.calls, len(s.writes), len(all), fnv(all), h)
+	return fmt.Sprintf("calls=%d,writes=%d,bytes=%d,fnv=%d,pattern=%d", s.ncalls, len(s.writes), len(all), fnv(all), h)
 }
 
-// scripted source
+// scripted source (safe for use from the library's goroutines and the harness at once)
 type scriptSrc struct {
+	mu          sync.Mutex
 	data        []byte
-	pos         int
+	rpos        int
 	chunk       int
-	calls       int
+	ncalls      int
 	failAt      int
 	eofWithData bool
 }
 
+func (s *scriptSrc) pos() int   { s.mu.Lock(); defer s.mu.Unlock(); return s.rpos }
+func (s *scriptSrc) calls() int { s.mu.Lock(); defer s.mu.Unlock(); return s.ncalls }
+
 func (s *scriptSrc) Read(p []byte) (int, error) {
-	k := s.calls
-	s.calls++
+	s.mu.Lock()
+	defer s.mu.Unlock()
+	k := s.ncalls
+	s.ncalls++
 	if s.failAt >= 0 && k >= s.failAt {
 		return 0, errInjected
 	}
 	if len(p) == 0 {
 		return 0, nil
 	}
-	rem := len(s.data) - s.pos
+	rem := len(s.data) - s.rpos
 	if rem == 0 {
 		return 0, io.EOF
 	}
@@ -114,9 +133,9 @@ func (s *scriptSrc) Read(p []byte) (int, error) {
 	if s.chunk > 0 && s.chunk < n {
 		n = s.chunk
 	}
-	copy(p, s.data[s.pos:s.pos+n])
-	s.pos += n
-	if s.eofWithData && s.pos == len(s.data) {
+	copy(p, s.data[s.rpos:s.rpos+n])
+	s.rpos += n
+	if s.eofWithData && s.rpos == len(s.data) {
 		return n, io.EOF
 	}
 	return n, nil
@@ -127,7 +146,7 @@ type onlyReader struct{ r io.Reader }
 
 func (o onlyReader) Read(p []byte) (int, error) { return o.r.Read(p) }
 
-const opTimeout = 20 * time.Second
+const opTimeout = 10 * time.Second
 
 // timed runs f under a watchdog: a call that does not return is reported as HANG.
 func timed(f func() string) (string, bool) {
@@ -273,16 +292,29 @@ func implW(f []string, o *oracleSink) string {
 				}
 				return errName(err)
 			case "w":
-				d := parseData(p[1])
-				callsBefore := sink.calls
+				d0 := parseData(p[1])
+				// io.Writer contract: Write must not retain p. One caller buffer is reused for every Write
+				// of the session and scribbled over as soon as Write has returned.
+				if cap(callerBuf) < len(d0) {
+					callerBuf = make([]byte, len(d0))
+				}
+				d := callerBuf[:len(d0)]
+				copy(d, d0)
+				defer func() {
+					for i := range d {
+						d[i] = 0xEE
+					}
+					d = d0
+				}()
+				callsBefore := sink.calls()
 				n, err := zw.Write(d)
-				if tr.closed && cur["conc"] == 1 && (err == nil && len(d) > 0 || sink.calls != callsBefore) {
+				if tr.closed && cur["conc"] == 1 && (err == nil && len(d) > 0 || sink.calls() != callsBefore) {
 					notes = append(notes, "WRITE-AFTER-CLOSE-ACCEPTED")
 				}
 				if err != nil || n != len(d) {
 					tr.clean = false
 				}
-				tr.data = append(tr.data, d[:n]...)
+				tr.data = append(tr.data, d0[:n]...)
 				return fmt.Sprintf("%d/%s", n, errName(err))
 			case "f":
 				err := zw.Flush()
@@ -298,13 +330,13 @@ func implW(f []string, o *oracleSink) string {
 				}
 				return errName(err)
 			case "c":
-				before := sink.calls
+				before := sink.calls()
 				wasClosed := tr.closed
 				err := zw.Close()
 				if err != nil {
 					tr.clean = false
 				}
-				if wasClosed && sink.calls != before {
+				if wasClosed && sink.calls() != before {
 					notes = append(notes, "SECOND-CLOSE-EMITS")
 				}
 				tr.closed = true
@@ -355,7 +387,7 @@ func implW(f []string, o *oracleSink) string {
 	// C15: a sink failure must be returned by some call, at the latest by Close, and what reached the
 	// sink must be a prefix of the fault-free output
 	if fa := atoi(f[1]); fa >= 0 && !hung && len(f) > 2 && !strings.Contains(strings.Join(f[2:], " "), "R:") {
-		hit := sink.calls > fa
+		hit := sink.calls() > fa
 		reported := false
 		for _, r := range res {
 			if strings.Contains(r, "injected") {
@@ -389,6 +421,7 @@ func implW(f []string, o *oracleSink) string {
 	return fmt.Sprintf("%s ; %s ; %s", strings.Join(res, " "), strings.Join(sinks, " "), strings.Join(append(notes, "notes"), " "))
 }
 
+var callerBuf []byte
 var shadowDepth int
 var lastShadowSink []byte
 
@@ -430,6 +463,10 @@ func implR(f []string, o *oracleSink) string {
 			expectErr = p[1]
 			continue
 		}
+		if p[0] == "z" { // a slow consumer
+			time.Sleep(time.Duration(atoi(p[1])) * time.Millisecond)
+			continue
+		}
 		if hung {
 			res = append(res, "skipped")
 			continue
@@ -438,12 +475,12 @@ func implR(f []string, o *oracleSink) string {
 			switch p[0] {
 			case "r":
 				buf := make([]byte, atoi(p[1]))
-				posBefore := src.pos
+				posBefore := src.pos()
 				n, err := zr.Read(buf)
 				if n > len(buf) || n < 0 {
 					return fmt.Sprintf("%d/BADCOUNT/%s", n, errName(err))
 				}
-				if cleanEOF && conc == 1 && src.pos != posBefore {
+				if cleanEOF && conc == 1 && src.pos() != posBefore {
 					notes = append(notes, "READ-AFTER-EOF-CONSUMES")
 				}
 				if !cleanEOF && !sawErr {
@@ -495,7 +532,7 @@ func implR(f []string, o *oracleSink) string {
 	}
 	if cleanEOF {
 		// C05: an independent implementation accepts the consumed bytes with the same output
-		cons := src.pos
+		cons := src.pos()
 		ref := blobRef
 		if strings.HasPrefix(ref, "@") {
 			if i := strings.IndexByte(ref, '#'); i >= 0 {
@@ -517,7 +554,7 @@ func implR(f []string, o *oracleSink) string {
 	if haveE && !(cleanEOF && bytes.Equal(delivered, expect)) {
 		notes = append(notes, "WRONG-CONTENT")
 	}
-	failureHit := src.failAt < 0 || src.calls > src.failAt
+	failureHit := src.failAt < 0 || src.calls() > src.failAt
 	if expectErr != "" && failureHit {
 		if expectErr == "eof" {
 			if !cleanEOF {
@@ -540,7 +577,7 @@ func implR(f []string, o *oracleSink) string {
 			notes = append(notes, "NOT-PREFIX")
 		}
 	}
-	cons := fmt.Sprint(src.pos)
+	cons := fmt.Sprint(src.pos())
 	abandoned := false
 	for _, op := range f[6:] {
 		if strings.HasPrefix(op, "R:") || strings.HasPrefix(op, "A:") {
